@@ -110,6 +110,7 @@ fn main() {
         "C07" => cli::run_c07(&o),
         "C08" => cli::run_c08(&o),
         "C20" => edit::run(&o),
+        "C20T" => edit::run_tty(&o),
         "C14" => cmd::run(&o),
         "C05" => asm::run(&o),
         "C19" => asm::run_seq(&o),
